@@ -212,6 +212,19 @@ static void read_vector(sqlite3 *db, char *tabname, dvector *vect)
     xfree(sql);
 }
 
+static int table_exists(sqlite3 *db, const char *tabname)
+{
+    int found = 0;
+    sqlite3_stmt *stmt;
+    if(sqlite3_prepare_v2(db, "SELECT 1 FROM sqlite_master WHERE type = 'table' AND name = ?;", -1, &stmt, 0) == SQLITE_OK){
+        sqlite3_bind_text(stmt, 1, tabname, -1, SQLITE_STATIC);
+        if(sqlite3_step(stmt) == SQLITE_ROW)
+            found = 1;
+        sqlite3_finalize(stmt);
+    }
+    return found;
+}
+
 static void OpenDB(char *dbpath, sqlite3 **db)
 {
     int rc;
@@ -284,6 +297,7 @@ void WritePCA(char *dbpath, PCAMODEL *pca)
      * - **varexp** vector of explained variance by every component 
      * - **colaverage** input matrix column average
      * - **colscaling** input matrix column scaling
+     * - **dmodx** distance of every object to the model, per component
      */
 
     write_vector_into_sqltable(db, "colaverage", pca->colaverage);
@@ -299,7 +313,12 @@ void WritePCA(char *dbpath, PCAMODEL *pca)
     serialize_matrix(pca->loadings, serial_vect);
     write_vector_into_sqltable(db, "loadings", serial_vect);
     DelDVector(&serial_vect);
-    
+
+    initDVector(&serial_vect);
+    serialize_matrix(pca->dmodx, serial_vect);
+    write_vector_into_sqltable(db, "dmodx", serial_vect);
+    DelDVector(&serial_vect);
+
     CloseDB(db);
 }
 
@@ -323,6 +342,14 @@ void ReadPCA(char *dbpath, PCAMODEL *pca)
     read_vector(db, "loadings", serial_vect);
     deserialize_matrix(serial_vect, pca->loadings);
     DelDVector(&serial_vect);
+
+    /* files written before dmodx was stored do not have the table */
+    if(table_exists(db, "dmodx")){
+        initDVector(&serial_vect);
+        read_vector(db, "dmodx", serial_vect);
+        deserialize_matrix(serial_vect, pca->dmodx);
+        DelDVector(&serial_vect);
+    }
 
     CloseDB(db);
 }
